@@ -264,3 +264,82 @@ def pfind(root: ast.AST, pattern: str, metas: Iterable[str] = (), binding: Optio
     """First match (node, binding) or (None, {})."""
     m = pmatch(root, pattern, metas, binding)
     return m[0] if m else (None, {})
+
+
+# ---------------------------------------------------------------------- rename-robust fragment matching
+
+def local_names(func: ast.AST) -> Set[str]:
+    """Names bound inside a function body (assignments, loop/with/except/comprehension targets, walrus) — not parameters."""
+    out: Set[str] = set()
+    for n in ast.walk(func):
+        if isinstance(n, ast.Name) and isinstance(n.ctx, (ast.Store, ast.Del)):
+            out.add(n.id)
+        elif isinstance(n, ast.ExceptHandler) and n.name:
+            out.add(n.name)
+    a = getattr(func, "args", None)
+    if a is not None:
+        for x in a.posonlyargs + a.args + a.kwonlyargs + ([a.vararg] if a.vararg else []) + ([a.kwarg] if a.kwarg else []):
+            out.discard(x.arg)
+    return out
+
+
+class Frag:
+    """Fragment matcher for one function: patterns are written with the identifiers of today's source; every identifier
+    that is a *local* of the function (or is bound inside the pattern itself) is a metavariable, bound consistently
+    across all patterns matched through this object.  Renaming locals, reformatting and comments do not affect a match;
+    parameters, attributes, names the function only reads (globals, builtins, modules) and constants are matched literally.
+    A pattern identifier that does not occur in the function at all is a metavariable too (a renamed local)."""
+
+    def __init__(self, fi_or_node, extra_metas: Iterable[str] = (), literal: Iterable[str] = ()):
+        self.node = getattr(fi_or_node, "node", fi_or_node)
+        loc = local_names(self.node)
+        loaded = {n.id for n in ast.walk(self.node) if isinstance(n, ast.Name) and isinstance(n.ctx, ast.Load)}
+        a = getattr(self.node, "args", None)
+        params = set()
+        if a is not None:
+            params = {x.arg for x in a.posonlyargs + a.args + a.kwonlyargs + ([a.vararg] if a.vararg else []) + ([a.kwarg] if a.kwarg else [])}
+        # literal: parameters and names the function only reads (globals, builtins, imported modules)
+        self.literal = (params | (loaded - loc) | set(literal) | {"self", "cls", "np", "numpy"}) - set(extra_metas)
+        self.binding: Dict[str, str] = {}
+
+    def _metas(self, pt: ast.AST) -> Set[str]:
+        names = {n.id for n in ast.walk(pt) if isinstance(n, ast.Name)}
+        return names - self.literal
+
+    def find(self, pattern: str, root: Optional[ast.AST] = None, bind: bool = True) -> List[Tuple[ast.AST, Dict[str, str]]]:
+        pt = ast.parse(pattern.strip())
+        metas = self._metas(pt)
+        pre = {k: v for k, v in self.binding.items() if k in metas}
+        ms = pmatch(root if root is not None else self.node, pattern, metas, pre)
+        if ms and bind:
+            for k, v in ms[0][1].items():
+                self.binding.setdefault(k, v)
+        return ms
+
+    def has(self, pattern: str, root: Optional[ast.AST] = None, bind: bool = True) -> bool:
+        return bool(self.find(pattern, root, bind))
+
+    def all(self, *patterns: str) -> bool:
+        return all(self.has(p) for p in patterns)
+
+    def first(self, pattern: str, root: Optional[ast.AST] = None) -> Optional[ast.AST]:
+        ms = self.find(pattern, root)
+        return ms[0][0] if ms else None
+
+
+def kwarg(call: ast.Call, name: str, pos: Optional[int] = None) -> Optional[ast.AST]:
+    for k in call.keywords:
+        if k.arg == name:
+            return k.value
+    if pos is not None and pos < len(call.args) and not any(isinstance(a, ast.Starred) for a in call.args[:pos + 1]):
+        return call.args[pos]
+    return None
+
+
+def const_of(e: Optional[ast.AST], default=None):
+    if e is None:
+        return default
+    try:
+        return ast.literal_eval(e)
+    except Exception:
+        return ...
